@@ -13,9 +13,14 @@ class S(K.PairSpec):
 SPEC = S()
 
 
+from .. import stages as G
+
+STAGES = [G.conn_stage("C10", 12, 12, 1500, 30000, "Connection-scope stage of C10: the per-connection flow-control accounts start anew on EVERY connection, resumed sessions included — the monitor mon_c12 keeps a ghost count of the inbound QoS>0 PUBLISH of the CURRENT connection (reset at each connection start) and requires that a peer within the announced Receive Maximum is never answered with 'Receive Maximum exceeded', and that the send-side vacancy equals the ghost count of open exchanges.", 'quota')]
+
+
 def run(tier, seed, t0):
-    return D.run(SPEC, tier, seed, t0)
+    return G.run_with_stages("C10", SPEC, STAGES, tier, seed, t0)
 
 
 def replay(path):
-    return D.do_replay(SPEC, path)
+    return G.replay(path, SPEC, STAGES)
